@@ -21,7 +21,7 @@ func VHQueueStep() {
 				q.Enqueue(x)
 			}
 		},
-		Pop: q.Dequeue, Peek: q.Peek, Clear: q.Clear, Values: q.Values, Size: q.Size, Empty: q.Empty, String: q.String, Heap: q.heap}, pre)
+		Pop: q.Dequeue, Peek: q.Peek, Clear: q.Clear, Values: q.Values, Size: q.Size, Empty: q.Empty, String: q.String, Heap: q.heap, Name: "PriorityQueue"}, pre)
 }
 
 func VHIter() {
